@@ -185,6 +185,9 @@ def table_cases(name, tier):
             (A("python_full_version", ">=", "3.9.1"), A("python_full_version", "<", "3.9.1")),
             (A("os_name", "==", "posix"), A("os_name", "!=", "posix")),
             (A("platform_machine", "in", "x86_64 AMD64"), A("platform_machine", "==", "x86")),
+            # a literal that holds a double quote (rendered in single quotes), first and second in its group
+            (A("platform_system", "==", 'Li"nux'), A("platform_system", "==", "Windows")),
+            (A("platform_system", "==", "Windows"), A("platform_system", "in", 'Li"nux Darwin')),
         ]
         for (x1, x2), i in itertools.product(xs, range(len(W))):
             p = W[i]
